@@ -23,6 +23,7 @@ on its own is the wrapped sub-check's business, known findings included)."""
 import copy
 import os
 import pickle
+import time
 
 from mc.core import Outcome, SubCheck, h64, run_case
 
@@ -86,8 +87,9 @@ def solo(inner, case):
         code = 0
         try:
             os.close(r)
+            t0 = time.process_time()
             o1 = run_case(inner, case)
-            res = (not o1.disc, h64(repr(o1.outcome)))
+            res = (not o1.disc, h64(repr(o1.outcome)), time.process_time() - t0)
             with os.fdopen(w, "wb") as f:
                 f.write(pickle.dumps(res))
         except BaseException:  # noqa
@@ -101,7 +103,7 @@ def solo(inner, case):
     try:
         return pickle.loads(data)
     except Exception:  # noqa
-        return (False, None)
+        return (False, None, 0.0)
 
 
 class CrossTalk(SubCheck):
@@ -116,13 +118,21 @@ class CrossTalk(SubCheck):
         extra = list(inner.crosstalk_cases()) if hasattr(inner, "crosstalk_cases") else []
         cand = [("x", c) for c in extra] + [(i, None) for i in select(inner, want, seed)]
         self.sel, self.solo, self.explicit = [], [], []
+        budget = 600.0 if tier == "thorough" else 48.0      # CPU seconds for all pairs of this wrapper
+        spent = 0.0
         for i, c in cand:
-            if len(self.sel) >= want + len(extra):
+            n = len(self.sel)
+            if n >= want + len(extra):
+                break
+            if n >= 6 and spent / n * 2.0 * (n + 1) ** 2 > budget:
+                self.caps_hit = ["alphabet cut at %d cases (of %d wanted): %.2f s of CPU per case, %g s budget for all pairs"
+                                 % (n, want + len(extra), spent / n, budget)]
                 break
             c = inner.case(i) if c is None else c
-            clean, digest = solo(inner, c)
+            clean, digest, secs = solo(inner, c)
             if not clean:
                 continue        # not clean on its own: the wrapped sub-check reports it (or it is a known finding)
+            spent += secs
             if solo(inner, copy.deepcopy(c))[1] != digest:
                 digest = None   # the digest is not a function of the case (two fresh processes disagree): not compared
             self.sel.append(i if i != "x" else -1 - len(self.explicit))
